@@ -66,7 +66,7 @@ def renamings(rxns, rng, limit):
     return out
 
 
-def check_network(tw, rxns, fails, rng, tags, deep=True):
+def check_network(tw, rxns, fails, rng, tags, deep=True, n_ren=4):
     nontriv = 0
     for ir, st in ((True, True), (True, False), (False, True)):
         H = gen.build_crn(rxns)
@@ -124,7 +124,7 @@ def check_network(tw, rxns, fails, rng, tags, deep=True):
         # (3) invariance under renaming / reaction order / id regeneration
         if deep:
             base = dump(Gc, NK, ek)
-            for r2 in renamings(rxns, rng, 4):
+            for r2 in renamings(rxns, rng, n_ren):
                 c2 = CRNCanonicalizer(gen.build_crn(r2), include_rule=ir, include_stoich=st)
                 if dump(c2.graph(), NK, ek) != base:
                     bad("CRNCanonicalizer.graph", "renamed / reordered network %s gets a different canonical graph" % (r2,), "invariance")
@@ -171,13 +171,22 @@ def run(tw, tier, seed, only=None):
            [({"A": 1, "D": 2}, {"E": 2}), ({"A": 2, "D": 1}, {"E": 1})],
            [({"A": 2}, {"B": 1}), ({"C": 1}, {"B": 1})], [({"A": 2, "B": 1}, {"C": 1})],
            [({"X": 1}, {"Y": 2}), ({"X": 3}, {"Z": 1}), ({"W": 3}, {"Z": 1}), ({"W": 1}, {"Y": 2})]]
+    # several identical, disconnected sub-networks: refinement leaves several non-singleton cells of equal size, and which one the
+    # search individualises first must not depend on the node names
+    def copies(motif, k):
+        return [({"%s%d" % (x, j): c for x, c in r.items()}, {"%s%d" % (x, j): c for x, c in p.items()}) for j in range(k) for r, p in motif]
+    for motif in ([({"A": 1}, {"B": 1})], [({"A": 1}, {"B": 1}), ({"B": 1}, {"C": 1})], [({"A": 1, "B": 1}, {"C": 1})], [({"A": 2}, {"B": 1})],
+                  [({"A": 1}, {"B": 1}), ({"B": 1}, {"A": 1})]):
+        for k in (2, 3):
+            if len(motif) * k + len({x for r, p in motif for x in list(r) + list(p)}) * k <= 12:
+                fam.append(copies(motif, k))
     nets = fam + nets
     for _ in range(25 if tier == "quick" else 250):
         nets.append(gen.random_network(rng, 5 if tier == "quick" else 6, 4 if tier == "quick" else 5, 3))
     for i, rxns in enumerate(nets):
         tags = {"family": "symmetric" if i < len(fam) else "enumerated/random"}
         try:
-            nontriv += check_network(tw, rxns, fails, rng, tags)
+            nontriv += check_network(tw, rxns, fails, rng, tags, n_ren=4 if i >= len(fam) else 12)
         except Exception as ex:
             fails.append({"function": "C18 twin", "violations": ["raised %r" % (ex,)], "rxns": rxns, "tags": tags})
         cases += 1
